@@ -283,6 +283,8 @@ pub fn stmt_text(n: &dyn RegNames, s: &Sexp, ind: usize, out: &mut String) {
         },
         "wait" => out.push_str(&format!("+{}:\n", a[0].as_i64())),
         "anti" => out.push_str(&format!("{pad}ins_{OP_ANTI}();\n")),
+        // an instruction given by its raw bytes (the opcode still counts, e.g. for the anti-scratch rule)
+        "callblob" => out.push_str(&format!("{pad}ins_{}(@blob=\"{}\");\n", a[0].as_i64(), if a[1].as_atom() == "-" { "" } else { a[1].as_atom() })),
         "diff" => { out.push_str(&format!("{pad}{{\"{}\"}}: ", a[0].as_atom())); let mut inner = String::new(); stmt_text(n, &a[1], 0, &mut inner); out.push_str(&inner); },
         h => panic!("bad stmt head {h}"),
     }
